@@ -738,6 +738,10 @@ def build_rtl_layer(calibration_outputs, model_config, submodel_index,
   else:
     raise ValueError('Unknown type of parameterization: {}'.format(
         model_config.parameterization))
+  if model_config.random_seed is None:
+    # The RTL structure is derived from the seed. Store the drawn seed in the
+    # config, so that a model rebuilt from get_config() has the same structure.
+    model_config.random_seed = int(np.random.randint(0, 2**31 - 1))
   return rtl_layer.RTL(
       num_lattices=model_config.num_lattices,
       lattice_rank=model_config.lattice_rank,
